@@ -1204,6 +1204,73 @@ theorem redactObj_canon {a : Algo} {kvs : EventParse.Obj} (hfd : FoldNodup kvs) 
       | none => rw [hl] at h1; cases h1
       | some _ => rfl
 
+
+/-! ### … and so does `redactWith` (the restriction to exact field names comes first) -/
+
+theorem lookupExact_of_mem {l : EventParse.Obj} (hn : (keysOf l).Nodup) {k : Bytes} {v : JVal} (h : (k, v) ∈ l) :
+    lookupExact l k = some v := by
+  have hf := filter_key_nodup l k hn
+  have hm : (k, v) ∈ l.filter (fun kv => kv.1 == k) := List.mem_filter.mpr ⟨h, by simp⟩
+  rw [hf] at hm
+  cases hl : lookupExact l k with
+  | none => rw [hl] at hm; cases hm
+  | some w =>
+    rw [hl] at hm
+    simp only [List.mem_singleton, Prod.mk.injEq, true_and] at hm
+    rw [hm]
+
+theorem lookupExact_canon {l : EventParse.Obj} (hn : (keysOf l).Nodup) (n : Bytes) :
+    lookupExact (canonMembers l) n = (lookupExact l n).map (fun v => v.sorted.normNums) := by
+  cases h : lookupExact l n with
+  | some v =>
+    have hmem : (n, v.sorted.normNums) ∈ canonMembers l :=
+      (canonMembers_perm l).symm.subset (List.mem_map_of_mem (f := cm) (lookupExact_mem h))
+    exact lookupExact_of_mem (canonMembers_nodup hn) hmem
+  | none =>
+    rw [lookupExact_eq, lastSome_none_iff] at h
+    rw [lookupExact_eq]
+    apply lastSome_none_of_forall
+    intro x hx
+    obtain ⟨y, hy, rfl⟩ := List.mem_map.mp ((canonMembers_perm l).subset hx)
+    exact h y hy
+
+theorem foldNodup_exactFields {fs : List Field} (hd : foldDistinct fs = true) (kvs : EventParse.Obj) :
+    FoldNodup (exactFields fs kvs) := by
+  unfold FoldNodup
+  have hs := (exactFields_keys_sublist fs kvs).map foldBytes
+  have e1 : (keysOf (exactFields fs kvs)).map foldBytes = (exactFields fs kvs).map (fun kv => foldBytes kv.1) := by
+    simp [keysOf, List.map_map]
+  have e2 : (fs.map (·.name)).map foldBytes = fs.map (fun f => foldBytes f.name) := by simp [List.map_map]
+  rw [e1, e2] at hs
+  exact hs.nodup ((noDupIn_iff_nodup _).mp hd)
+
+theorem noDupKeys_exactFields {fs : List Field} (hd : foldDistinct fs = true) {kvs : EventParse.Obj}
+    (h : (JVal.obj kvs).noDupKeys = true) : (JVal.obj (exactFields fs kvs)).noDupKeys = true := by
+  simp only [JVal.noDupKeys, Bool.and_eq_true] at h ⊢
+  refine ⟨(noDupIn_iff_nodup _).mpr (exactFields_nodup hd kvs), ?_⟩
+  rw [jNoDupMembers_eq_all, List.all_eq_true] at h ⊢
+  intro kv hkv
+  obtain ⟨f, _, _, hl⟩ := exactFields_mem hkv
+  exact h.2 (f.name, kv.2) (lookupExact_mem hl)
+
+/-- **`RedactEventJSON` survives canonicalisation.**  If an event without duplicate keys can be redacted, so
+    can its canonical form. -/
+theorem redactWith_canon {a : Algo} (hT : tablesOk a = true) {kvs : EventParse.Obj} (hd : (JVal.obj kvs).noDupKeys = true)
+    {v : JVal} (h : redactWith a (.obj kvs) = .ok v) : ∃ v', redactWith a (.obj (canonMembers kvs)) = .ok v' := by
+  obtain ⟨hdist, _, _, _⟩ := tablesOk_parts hT
+  have hnd := names_nodup hdist
+  have hfd := foldNodup_exactFields hdist kvs
+  have h' : redactObj a (exactFields a.fields kvs) = .ok v := h
+  obtain ⟨v', hv'⟩ := redactObj_canon hfd (noDupKeys_exactFields hdist hd) h'
+  refine ⟨v', ?_⟩
+  rw [redactWith_obj, ← hv']
+  apply redactObj_congr
+  intro f hf
+  rw [sel_canon hfd, sel_wf (exactFields_wf hdist kvs) hf, sel_wf (exactFields_wf hdist (canonMembers kvs)) hf,
+    lookupExact_exactFields hnd kvs hf, lookupExact_exactFields hnd (canonMembers kvs) hf,
+    lookupExact_canon (keys_nodup_of_noDup hd)]
+  cases lookupExact kvs f.name <;> rfl
+
 /-! ## Tables over the keys `Build` writes -/
 
 theorem allKeys_fold_inj : ∀ a ∈ allKeys, ∀ b ∈ allKeys, foldBytes a = foldBytes b → a = b := by decide
